@@ -223,6 +223,43 @@ def row_operation_width(ck, F, rule, fn, floor=3):
             # (other path conditions - the search found a row, loop bounds - are not judged here)
         ck.inst(rule, "%s:pivot-exchange#%d" % (fn.rsplit("::", 1)[-1], nsw), not bad, e.site,
                 "rows %r and %r are exchanged whenever they differ%s" % (r1, r2, (" ; but " + "; ".join(bad[:2])) if bad else ""))
+    # Pivot search by position: a row found as `position()` within the view s![a.., c] is row a + position (the view starts at row a)
+    def _polys(v):
+        if isinstance(v, Poly):
+            yield v
+            for mono in v.t:
+                for a_, _ in mono:
+                    if a_[0] == "f":
+                        for k_ in a_[2:]:
+                            yield from _polys(k_)
+        elif isinstance(v, (tuple, list)):
+            for x_ in v:
+                yield from _polys(x_)
+    npos, seen_pos = 0, set()
+    for kind, e, idx in ops:
+        if kind != "swap":
+            continue
+        for p_ in _polys(list(e.args[1:3])):
+            for mono, c_ in p_.t.items():
+                if len(mono) != 1 or mono[0][1] != 1:
+                    continue
+                a_ = mono[0][0]
+                if not (a_[0] == "f" and atom_fn(a_) == "payload0" and isinstance(atom_args(a_)[0], Poly)):
+                    continue
+                ia = single_atom(atom_args(a_)[0])
+                if ia is None or atom_fn(ia) != "std::iter::Iterator::position" or "::slice(" not in repr(ia)[:400]:
+                    continue
+                specs = [sp_ for sp_ in all_slice_specs(ia) if len(sp_) == 2 and isinstance(sp_[0], tuple) and sp_[0] and sp_[0][0] == "struct"
+                         and str(sp_[0][1]) == "RangeFrom"]
+                if not specs or repr(a_) in seen_pos:
+                    continue
+                seen_pos.add(repr(a_))
+                st = dict(specs[0][0][2]).get("start")
+                st = st[1] if isinstance(st, tuple) and len(st) == 2 and st[0] == "P" else st
+                rest = p_ - Poly.atom(a_) * Poly.const(c_)
+                npos += 1
+                ck.inst(rule, "%s:pivot-search-offset#%d" % (fn.rsplit("::", 1)[-1], npos), c_ == 1 and isinstance(st, Poly) and rest == st, e.site,
+                        "the row found at position p of the view that starts at row %r is taken to be row %r + p ; required the start of the view + p" % (st, rest))
     # Pivot value: an element of a row that takes part in the exchange, read into a local and used by a later row operation, is read
     # *after* the exchange (read before it, the local holds the element of the row that was there before: for a row found further
     # down it is the zero the search skipped, and the elimination divides by it)
@@ -245,8 +282,12 @@ def row_operation_width(ck, F, rule, fn, floor=3):
                 if row_ not in swap_rows:
                     continue
                 earlier = [r for r in reads_ if r.seq < e.seq and isinstance(r.args[0], Poly) and single_atom(r.args[0]) == a_]
-                stale = [r for r in earlier if any(r.seq < s_.seq < e.seq for s_, _ in swaps_)]
-                fresh = [r for r in earlier if r not in stale]
+                # (the value a local holds is that of the *latest* read of the element before the row operation: an earlier test of
+                # the same element - `if !array[[j, j]].is_zero()` before the search - is re-read after the exchange)
+                earlier.sort(key=lambda r: r.seq)
+                latest = earlier[-1:] 
+                stale = [r for r in latest if any(r.seq < s_.seq < e.seq for s_, _ in swaps_)]
+                fresh = [r for r in latest if r not in stale]
                 if not earlier or (r_ := (stale or fresh)[0]).site in seen_:
                     continue
                 seen_.add(r_.site)
